@@ -62,4 +62,26 @@ theorem C20_sanitize_id (s : String) (h : ∀ c ∈ s.toList, (c.isAlphanum && c
 example : buildInfoLabels [⟨"app.kubernetes.io/name", "x"⟩, ⟨"a-b", "1"⟩, ⟨"a.b", "2"⟩]
     = [("a_b", "1"), ("a_b", "2"), ("app_kubernetes_io_name", "x")] := by decide
 
+/-- **Gauges = status (ExtendedDaemonSet).** For every object, the series generated for it report the
+status fields: counters, canary activated / paused / node number, rolling-update-paused, rollout-frozen. -/
+theorem C20_eds_gauges (d : EDS) : edsGauges d.status (gaugeOf (edsSamples d)) = true := by
+  simp [edsGauges, gaugeOf, edsSamples, List.find?]
+  cases d.status.canary <;> rfl
+
+/-- **Gauges = status (replica set).** -/
+theorem C20_ers_gauges (e : ERS) : ersGauges e.status (gaugeOf (ersSamples e)) = true := by
+  simp [ersGauges, gaugeOf, ersSamples, List.find?]
+
+/-- the paused series is 1 only when the Canary-Paused condition is *True* (a stored False entry,
+left behind by an unpause, reports 0). -/
+theorem C20_canary_paused_needs_true (d : EDS) (h : isCondTrue d.status.conds "Canary-Paused" = false) :
+    gaugeOf (edsSamples d) "eds_status_canary_paused" = some 0 := by
+  simp [gaugeOf, edsSamples, List.find?, h]
+
+/-- the label-info series of both generators carry the namespace, the name and the `C20_pairs` pairs. -/
+theorem C20_info_series (d : EDS) :
+    ((edsSamples d).find? (fun s => s.family == "eds_labels")).map (·.labels)
+      = some (baseLabels d.ns d.name ++ buildInfoLabels d.labels) := by
+  simp [edsSamples]
+
 end Eds
